@@ -103,6 +103,16 @@ ROUND-3 SEEDED CHANGES (tools/seed_eval.py), first missed, now caught with a rep
        ExternalTensor.tofile a destination without fileno() (userspace copy loop, as on a file system without
        copy_file_range), every buffer passed to write() is a scheduling point and is what "materialised" counts
        for ExternalTensor sources (generator mode "extchunk": len > budget, chunk <= budget / 2); same in the soak
+
+ROUND-4: r4m3 (serial retry after an OSError of the parallel path) was missed, r4m2 (wait_for with a timeout whose
+result is ignored) had no replay.  Now: the fault stream injects OSError kinds as well ("exc": "oserror" persistent
+ENOSPC, "oserror-once" transient EIO on the first evaluation only, "short" = ExternalTensor source file one byte
+short so the REAL copy loop raises, hc["open_fail"] = EMFILE on the first worker descriptor; the latter is
+oracle-only, the model has no open step); the oracle counts evaluations (tofile calls) per tensor object
+(<= number of initializers using it) besides callbacks at most once, and a failing save must raise.  The
+cooperative Condition honours timeouts in an untimed way: a wait with a timeout may time out at any scheduling
+decision (some other thread is slow), so code that relies on elapsed time for safety is exercised; the clean
+tree uses no timeouts, so nothing changes there.
 """
 
 from __future__ import annotations
